@@ -157,7 +157,7 @@ def read_result(op, r):
 
 
 def close(x, y, tol, scale):
-    x, y = mpf(x), mpf(y)
+    x, y = R.M(x), R.M(y)
     if mpmath.isnan(x) or mpmath.isnan(y):
         return bool(mpmath.isnan(x) and mpmath.isnan(y))
     if mpmath.isinf(x) or mpmath.isinf(y):
